@@ -75,6 +75,7 @@ func (l *Leaser) Open() error {
 
 	config := api.DefaultConfig()
 	config.HttpClient = http.DefaultClient
+	config.HttpClient = verifHTTPClient(l.hostname)
 	config.Address = u.Host
 	config.Scheme = u.Scheme
 	if u.User != nil {
